@@ -4,6 +4,7 @@ import (
 	"encoding/json"
 	"errors"
 	"fmt"
+	"net/http"
 	"strconv"
 	"strings"
 	"sync/atomic"
@@ -154,10 +155,13 @@ type Engine struct {
 
 	QEs []*QEInfo
 	curReq *Submission
+	Mon *simconn.Monitor
 	foreignShutdownEpoch int
 
 	// Extra hooks for scenario specific behaviour.
 	OnPublish func(p *simconn.PubRec)
+	// OnQuiescent is called at a quiescent instant before a clean shutdown.
+	OnQuiescent func(ep int)
 
 	timeSlept time.Duration
 	scratch   []groupScratch
@@ -206,7 +210,7 @@ func (c *SvcCase) FullPattern(p *PatSpec) string {
 
 // NewEngine builds the service of the case. Must be called inside the bubble.
 func NewEngine(sim *sched.Sim, h *Hist, c *SvcCase) *Engine {
-	e := &Engine{Sim: sim, H: h, Case: c, bySubject: map[string]*Submission{}, foreignShutdownEpoch: -1}
+	e := &Engine{Sim: sim, H: h, Case: c, bySubject: map[string]*Submission{}, foreignShutdownEpoch: -1, Mon: simconn.NewMonitor()}
 	maxID := 0
 	for ai := range c.Actors {
 		for oi := range c.Actors[ai].Ops {
@@ -284,7 +288,12 @@ func (e *Engine) prepare(s *Submission) {
 			s.Group = rname
 		}
 		s.Inbox = fmt.Sprintf("_INBOX.peer.%d", op.ID)
-		e.bySubject[op.Subject] = s
+		if f, ok := model.ParseRequest(e.autoPayload(op)); ok && idFromQuery(f.Query) != op.ID {
+			// the handler cannot identify this request by id; it is
+			// identified by its subject, which the generator keeps unique
+			// among such requests
+			e.bySubject[op.Subject] = s
+		}
 	case "with", "withres", "emit":
 		rname := op.RID
 		if i := strings.IndexByte(rname, '?'); i >= 0 {
@@ -520,6 +529,13 @@ func (e *Engine) runScript(s *Submission, script []string, r res.Resource, kind 
 			r.ResetEvent()
 		case "val":
 			r.Value()
+		case "status":
+			r.(interface{ SetResponseStatus(int) }).SetResponseStatus(402)
+		case "header":
+			h := r.(interface{ ResponseHeader() http.Header }).ResponseHeader()
+			h["X-Test"] = []string{"v"}
+		case "tokenev":
+			r.(interface{ TokenEvent(interface{}) }).TokenEvent(map[string]int{"tok": s.Op.ID})
 		case "qe":
 			e.startQE(s, r, arg)
 		case "r":
@@ -610,10 +626,6 @@ func (e *Engine) reply(s *Submission, r res.Resource, kind, what string) {
 		default:
 			r.(okT).OK(unmarshalable{})
 		}
-	case "status":
-		r.(interface{ SetResponseStatus(int) }).SetResponseStatus(402)
-	case "header":
-		r.(interface{ ResponseHeader() map[string][]string }).ResponseHeader()
 	}
 }
 
@@ -652,9 +664,21 @@ func (e *Engine) newConn(ep *EpochInfo) *simconn.Conn {
 		}
 		return nil
 	}
+	npub := 0
+	c.FailPublish = func(subject string) error {
+		npub++
+		if cs.PubFailPct > 0 && int(splitmix64(uint64(npub)*7919+uint64(cs.PubFailPct))%100) < cs.PubFailPct && subject != "system.reset" {
+			e.Sim.Probe("fault.publish-error")
+			return errors.New("simulated publish failure")
+		}
+		return nil
+	}
 	c.OnPublish = func(p *simconn.PubRec) {
 		if ep.Started == 0 {
 			ep.Started = p.Seq
+		}
+		if cls, detail := e.Mon.Validate(p); cls != "" {
+			e.H.Violate("C07", cls, "", detail)
 		}
 		if e.OnPublish != nil {
 			e.OnPublish(p)
@@ -763,6 +787,10 @@ func (e *Engine) doOp(a *ActorSpec, op *Op) {
 			reply = ""
 		}
 		s.Invoke = e.H.Rec("req.send", s.Group, op.ID, op.Subject)
+		if reply != "" {
+			f, _ := model.ParseRequest(e.autoPayload(op))
+			e.Mon.Inboxes[reply] = simconn.InboxInfo{IsHTTP: f.IsHTTP}
+		}
 		ds := conn.Inject(op.Subject, reply, e.autoPayload(op))
 		s.Routed = len(ds)
 		for _, d := range ds {
